@@ -29,6 +29,21 @@ type c18Res struct {
 	N      int    `json:"n"`
 }
 
+// a second command type whose result is NOT a JSON object: its backend shares the reply topic with the first one
+type c18CmdB struct {
+	Caller string `json:"caller"`
+}
+
+func c18CallerOf(cmd any) string {
+	switch v := cmd.(type) {
+	case *c18Cmd:
+		return v.Caller
+	case *c18CmdB:
+		return v.Caller
+	}
+	return "?"
+}
+
 type c18Caller struct {
 	Name    string
 	Behav   string // drain | readone | noread | cancelearly | sendwithreply
@@ -41,6 +56,7 @@ type c18Case struct {
 	AckErrors bool
 	Timeout   time.Duration // ListenForReplyTimeout (0: none)
 	Callers   []c18Caller
+	Foreign   int // concurrent requests of the other command type (result type []string) on the same reply topic
 }
 
 type c18Pub struct {
@@ -82,11 +98,18 @@ func runC18(c *Ctx) error {
 			cases = append(cases, cs)
 		}
 	}
+	// backends with different result types share the reply topic: a reply that cannot even be decoded as the
+	// listener's type is still somebody else's reply
+	for _, ack := range []bool{false, true} {
+		cases = append(cases, c18Case{Class: "mixed-result-types", AckErrors: ack, Foreign: 4,
+			Callers: []c18Caller{{"c1", "drain", 1, false}, {"c2", "sendwithreply", 0, false}, {"c3", "readone", 0, false}, {"c4", "sendwithreply", 1, false}}})
+	}
 	n := c.Pick(10, 2000)
 	for i := 0; i < n; i++ {
-		cs := c18Case{Class: "random", AckErrors: c.Rng.Intn(2) == 0}
+		cs := c18Case{Class: "random", AckErrors: c.Rng.Intn(2) == 0, Foreign: c.Rng.Intn(3)}
 		if c.Rng.Intn(4) == 0 {
 			cs.Timeout = time.Duration(30+c.Rng.Intn(60)) * time.Millisecond
+			cs.Foreign = 0
 		}
 		for k := 0; k < 1+c.Rng.Intn(10); k++ {
 			cs.Callers = append(cs.Callers, c18Caller{fmt.Sprintf("c%d", k+1), behavs[c.Rng.Intn(len(behavs))], c.Rng.Intn(3), c.Rng.Intn(6) == 0})
@@ -179,7 +202,7 @@ func c18Body(r *tr.Run, cs c18Case) {
 		}
 		return false
 	}}
-	backend, err := requestreply.NewPubSubBackend[c18Res](requestreply.PubSubBackendConfig{
+	cfg := requestreply.PubSubBackendConfig{
 		Publisher:             replyPub,
 		SubscriberConstructor: func(requestreply.PubSubBackendSubscribeParams) (message.Subscriber, error) { return gc, nil },
 		GeneratePublishTopic:  func(requestreply.PubSubBackendPublishParams) (string, error) { return "replies", nil },
@@ -189,16 +212,16 @@ func c18Body(r *tr.Run, cs c18Case) {
 		ListenForReplyTimeout: tmo,
 		AckCommandErrors:      cs.AckErrors,
 		ModifyNotificationMessage: func(msg *message.Message, p requestreply.PubSubBackendOnCommandProcessedParams) error {
-			cmd := p.Command.(*c18Cmd)
+			cn := c18CallerOf(p.Command)
 			mu.Lock()
-			n := deliveries[cmd.Caller]
+			n := deliveries[cn]
 			mu.Unlock()
-			msg.Metadata.Set("caller", cmd.Caller)
+			msg.Metadata.Set("caller", cn)
 			msg.Metadata.Set("n", fmt.Sprint(n))
 			return nil
 		},
 		OnListenForReplyFinished: func(ctx context.Context, p requestreply.PubSubBackendSubscribeParams) {
-			cn := p.Command.(*c18Cmd).Caller
+			cn := c18CallerOf(p.Command)
 			r.Emit("finished", "c", cn)
 			mu.Lock()
 			nfinished++
@@ -208,7 +231,13 @@ func c18Body(r *tr.Run, cs c18Case) {
 			}
 			mu.Unlock()
 		},
-	}, requestreply.BackendPubsubJSONMarshaler[c18Res]{})
+	}
+	backend, err := requestreply.NewPubSubBackend[c18Res](cfg, requestreply.BackendPubsubJSONMarshaler[c18Res]{})
+	if err != nil {
+		r.Emit("error", "what", err.Error())
+		return
+	}
+	backendB, err := requestreply.NewPubSubBackend[[]string](cfg, requestreply.BackendPubsubJSONMarshaler[[]string]{})
 	if err != nil {
 		r.Emit("error", "what", err.Error())
 		return
@@ -223,11 +252,11 @@ func c18Body(r *tr.Run, cs c18Case) {
 		Marshaler: marshaler,
 		OnHandle: func(p cqrs.CommandProcessorOnHandleParams) error {
 			err := p.Handler.Handle(p.Message.Context(), p.Command)
-			cmd := p.Command.(*c18Cmd)
+			cn := c18CallerOf(p.Command)
 			mu.Lock()
-			n := deliveries[cmd.Caller]
+			n := deliveries[cn]
 			mu.Unlock()
-			r.Emit("cmdret", "c", cmd.Caller, "n", n, "ok", err == nil)
+			r.Emit("cmdret", "c", cn, "n", n, "ok", err == nil)
 			return err
 		},
 	})
@@ -246,6 +275,13 @@ func c18Body(r *tr.Run, cs c18Case) {
 			return c18Res{cmd.Caller, n}, errors.New("scripted handler error")
 		}
 		return c18Res{cmd.Caller, n}, nil
+	}), requestreply.NewCommandHandlerWithResult[c18CmdB, []string]("hb", backendB, func(ctx context.Context, cmd *c18CmdB) ([]string, error) {
+		mu.Lock()
+		deliveries[cmd.Caller]++
+		n := deliveries[cmd.Caller]
+		mu.Unlock()
+		r.Emit("handled", "c", cmd.Caller, "n", n, "ok", true)
+		return []string{cmd.Caller, fmt.Sprint(n)}, nil
 	}))
 	if err != nil {
 		r.Emit("error", "what", err.Error())
@@ -280,6 +316,14 @@ func c18Body(r *tr.Run, cs c18Case) {
 			c18Caller1(r, cs, cl, bus, backend, fch)
 		}()
 	}
+	for i := 0; i < cs.Foreign; i++ {
+		name := fmt.Sprintf("f%d", i+1)
+		wg.Add(1)
+		go func() {
+			defer wg.Done()
+			c18Foreign(r, name, bus, backendB)
+		}()
+	}
 	if !WaitOrHang(waitWG(&wg)) {
 		r.Emit("hung", "what", "callers")
 		return
@@ -290,7 +334,7 @@ func c18Body(r *tr.Run, cs c18Case) {
 		mu.Lock()
 		n := nfinished
 		mu.Unlock()
-		if n >= len(cs.Callers) {
+		if n >= len(cs.Callers)+cs.Foreign {
 			break
 		}
 		time.Sleep(2 * time.Millisecond)
@@ -299,6 +343,60 @@ func c18Body(r *tr.Run, cs c18Case) {
 	r.Emit("quiesce")
 	_ = router.Close()
 	r.NonTrivial = true
+}
+
+// c18Foreign is a caller of the other command type: it reads its reply, cancels and drains.
+func c18Foreign(r *tr.Run, name string, bus *cqrs.CommandBus, backend requestreply.Backend[[]string]) {
+	ctx, cancelCtx := context.WithCancel(context.Background())
+	defer cancelCtx()
+	ch, cancel, err := requestreply.SendWithReplies[[]string](ctx, bus, backend, &c18CmdB{Caller: name})
+	if err != nil {
+		r.Emit("error", "what", err.Error())
+		return
+	}
+	r.Emit("sent", "c", name)
+	logReply := func(rep requestreply.Reply[[]string]) {
+		var te requestreply.ReplyTimeoutError
+		if rep.Error != nil && errors.As(rep.Error, &te) {
+			r.Emit("timeoutreply", "c", name)
+			return
+		}
+		from, n := "?", 0
+		if rep.NotificationMessage != nil {
+			from, n = rep.NotificationMessage.Metadata.Get("caller"), atoiSafe(rep.NotificationMessage.Metadata.Get("n"))
+		}
+		et := ""
+		if rep.Error != nil {
+			et = rep.Error.Error()
+		}
+		if len(rep.HandlerResult) > 0 && rep.HandlerResult[0] != from {
+			from = "mixed:" + rep.HandlerResult[0] + "/" + from
+		}
+		r.Emit("reply", "c", name, "from", from, "n", n, "ok", rep.Error == nil, "errtext", et)
+	}
+	select {
+	case rep, ok := <-ch:
+		if ok {
+			logReply(rep)
+		}
+	case <-time.After(1500 * time.Millisecond):
+	}
+	r.Emit("ended", "c", name, "nochan", false)
+	cancel()
+	deadline := time.After(HangBound)
+	for {
+		select {
+		case rep, ok := <-ch:
+			if !ok {
+				r.Emit("chanclosed", "c", name)
+				return
+			}
+			logReply(rep)
+		case <-deadline:
+			r.Emit("hung", "what", "reply channel never closed", "c", name)
+			return
+		}
+	}
 }
 
 func atoiSafe(s string) int {
